@@ -29,8 +29,8 @@ RULE = ('bfs depth<=2; transitions = requests issued; a raising transition is no
 ASSUMPTIONS = ['FST objects passed as code are built fresh for every request (they are consumed)',
                'KeyboardInterrupt-like asynchronous faults are out of scope']
 BOUNDS = {
-    'quick': '40 programs; depth 1: fault alphabet (21 fault kinds at every node/list field) + full edit alphabet of C01; '
-             'depth 2: after every distinct valid first edit of the 1-code alphabet, the fault alphabet again',
+    'quick': '44 programs; depth 1: full fault alphabet (22 fault kinds at every node/list field) + 1-code edit alphabet; '
+             'depth 2: after every distinct valid first edit, the reduced (lite) fault alphabet',
     'thorough': 'quick + depth 2 after the 3-code alphabet with 2 forms, faults with all option settings',
 }
 
@@ -83,8 +83,9 @@ def enumerate_faults(src, tree=None, lite=False):
                 yield {'op': 'fault', 'fault': 'slice-bad-code', 'path': p, 'field': field, 'n': n}
                 if typ in ('stmt', 'excepthandler', 'match_case') or not lite:
                     code = E.K_ONE[typ][1 if len(E.K_ONE[typ]) > 1 else 0]
-                    for bo in ({'pep8space': 2}, {'trivia': (1, 2, 3)}, {'docstr': 'bogus'}, {'elif_': 3}, {'pars': 'x'}):
-                        for i in range(n + 1):
+                    for bo in (({'pep8space': 2}, {'trivia': (1, 2, 3)}) if lite else
+                               ({'pep8space': 2}, {'trivia': (1, 2, 3)}, {'docstr': 'bogus'}, {'elif_': 3}, {'pars': 'x'})):
+                        for i in sorted({0, n}) if lite else range(n + 1):
                             yield {'op': 'insert', 'path': p, 'field': field, 'idx': i, 'code': [code[0], code[1], 'src'],
                                    'opts': bo}
 
@@ -237,7 +238,7 @@ def run_shard(desc, tier, res):
     import fst
     import pfstmc.explore as XX
     src0 = PROGRAMS[desc['prog']]
-    a1 = dict(nk=2, nks=1, forms=('src', 'fst'), opts=({},)) if tier == 'quick' else dict(nk=6, nks=3, opts=({}, {'trivia': False}))
+    a1 = dict(nk=1, nks=1, forms=('src',), opts=({},)) if tier == 'quick' else dict(nk=6, nks=3, opts=({}, {'trivia': False}))
     a2 = dict(nk=1, nks=1, forms=('src',), opts=({},))
 
     def enum(src, d):
